@@ -262,3 +262,64 @@ def _delete_column(r0, r1, c0, c1, x, qx, qy, pre_read, py):
         exp = ref(r0, r1, c0, c1, qx, qy) if qx < x else ref(r0, r1, c0, c1, qx + 1, qy)
         ew = w - 1
     return judge(t, exp, ew, r0 + r1, qx, qy)
+
+
+# ----------------------------------------------------------------- ragged tables (rows shorter than the declared columns)
+
+def mkragged(w0, w1, r1, ncols):
+    """row 0: one run of w0 cells (value 1); rows 1..r1: one run of w1 cells (value 2); ncols declared columns"""
+    tn = Node("table")
+    col = Node("column", None, ncols)
+    col.parent = tn
+    tn.kids.append(col)
+    for val, width, rep in ((1, w0, 1), (2, w1, r1)):
+        rn = Node("row", None, rep)
+        c = _cellnode(val, width)
+        c.parent = rn
+        rn.kids.append(c)
+        rn.parent = tn
+        tn.kids.append(rn)
+    return KTable(_node=tn)
+
+
+def ragged_ref(w0, w1, r1, qx, qy):
+    if qy == 0:
+        return 1 if 0 <= qx < w0 else None
+    if 1 <= qy <= r1:
+        return 2 if 0 <= qx < w1 else None
+    return None
+
+
+def kt_ragged_delete_column(w0: int, w1: int, r1: int, extra: int, x: int, qx: int, qy: int) -> bool:
+    """
+    pre: 1 <= w0 and 1 <= w1 and 1 <= r1 and 0 <= extra and 0 <= x and 0 <= qx and 0 <= qy
+    post: _
+    """
+    # a column deletion shifts every row alike, also rows shorter than the declared width
+    ncols = (w0 if w0 > w1 else w1) + extra
+    t = mkragged(w0, w1, r1, ncols)
+    t.delete_column(x)
+    if x >= ncols:
+        exp = ragged_ref(w0, w1, r1, qx, qy)
+        ew = ncols
+    else:
+        exp = ragged_ref(w0, w1, r1, qx, qy) if qx < x else ragged_ref(w0, w1, r1, qx + 1, qy)
+        ew = ncols - 1
+    return judge(t, exp, ew, 1 + r1, qx, qy)
+
+
+def kt_ragged_insert_column(w0: int, w1: int, r1: int, extra: int, x: int, qx: int, qy: int) -> bool:
+    """
+    pre: 1 <= w0 and 1 <= w1 and 1 <= r1 and 0 <= extra and 0 <= x and 0 <= qx and 0 <= qy
+    post: _
+    """
+    ncols = (w0 if w0 > w1 else w1) + extra
+    t = mkragged(w0, w1, r1, ncols)
+    t.insert_column(x)
+    if qx < x:
+        exp = ragged_ref(w0, w1, r1, qx, qy)
+    elif qx == x:
+        exp = None
+    else:
+        exp = ragged_ref(w0, w1, r1, qx - 1, qy)
+    return judge(t, exp, (ncols if ncols > x else x) + 1, 1 + r1, qx, qy)
